@@ -180,6 +180,45 @@ def variants_stream(ctx, name, make, count, p_choices=(1, 2, 3), n_range=(36, 70
                     fail("aliasing", "the score table published after predict(X) differs from that of a fresh detector")
         except Exception as ex:
             fail("aliasing", f"raised {type(ex).__name__}: {str(ex)[:120]}")
+        # ---- ONE detector instance applied to one series after another of the same length -- a new array, the caller's own BUFFER overwritten in place, a labelled frame
+        #      after an array -- and asked for its dense scores FIRST: every answer is that of a fresh detector on that series, labelled by that series ----
+        try:
+            other = signal(rng, n, p)[::-1].copy()
+            f = make().fit(Xn.copy())
+            ref_b = _outputs(f, other.copy())
+            for how in ("new-array", "buffer-overwritten", "array-then-frame"):
+                buf = Xn.copy()
+                d = make().fit(buf)
+                _outputs(d, buf)
+                if how == "buffer-overwritten":
+                    buf[:] = other
+                    nxt = buf
+                elif how == "array-then-frame":
+                    nxt = pd.DataFrame(other.copy(), index=pd.date_range("2019-07-01", periods=n, freq="D"), columns=[f"c{j}" for j in range(p)])
+                else:
+                    nxt = other.copy()
+                if _has_scores(d):
+                    sc_frame = d.transform_scores(nxt)
+                    sc_first = np.asarray(sc_frame.to_numpy(), dtype=float).reshape(-1)
+                    if not _close(sc_first, ref_b["scores"], score_rtol):
+                        fail("instance-reuse", f"({how}) transform_scores of the second series, asked for before predict, differs from a fresh detector's (first entries "
+                             f"{str(sc_first[:3])} vs {str(np.asarray(ref_b['scores'])[:3])})", {"second_series": other.tolist()})
+                        break
+                    if isinstance(nxt, pd.DataFrame) and not sc_frame.index.equals(nxt.index):
+                        fail("instance-reuse", f"({how}) transform_scores of a frame does not carry the frame's index after the detector was used on an array", {"second_series": other.tolist()})
+                        break
+                out_b = _outputs(d, nxt)
+                if out_b["predict"] != ref_b["predict"] or out_b["labels"] != ref_b["labels"] or not _close(out_b["scores"], ref_b["scores"], score_rtol):
+                    fail("instance-reuse", f"({how}) the detector applied to a second series of the same length reports {str(out_b['predict'])[:140]}, a fresh detector reports "
+                         f"{str(ref_b['predict'])[:140]} (detections, dense labels and scores compared)", {"second_series": other.tolist()})
+                    break
+                tab_b, tab_f = getattr(d, "scores", None), getattr(f, "scores", None)
+                if isinstance(tab_b, pd.DataFrame) and isinstance(tab_f, pd.DataFrame) and not _close(np.asarray(tab_b.select_dtypes("number"), dtype=float),
+                                                                                                       np.asarray(tab_f.select_dtypes("number"), dtype=float), score_rtol):
+                    fail("instance-reuse", f"({how}) the published score table after the second series differs from a fresh detector's", {"second_series": other.tolist()})
+                    break
+        except Exception as ex:
+            fail("instance-reuse", f"raised {type(ex).__name__}: {str(ex)[:120]}")
         # ---- repeated index labels ----
         for kind in ("int-repeats", "datetime-repeats"):
             lab = np.sort(np.asarray([rng.randrange(0, n // 2) for _ in range(n)]))
@@ -232,9 +271,13 @@ def variants_stream(ctx, name, make, count, p_choices=(1, 2, 3), n_range=(36, 70
                 X2 = X1[[names[j] for j in perm]]
                 d = make().fit(X1)
                 got = _outputs(d, X2)
-                f = make().fit(Xn.copy())
-                want = _outputs(f, Xn[:, perm].copy())
-                if got["predict"] != want["predict"] or got["labels"] != want["labels"]:
+                X2own = pd.DataFrame(Xn[:, perm].copy(), columns=[names[j] for j in perm])
+                f = make().fit(X2own)
+                want = _outputs(f, X2own)
+                if got["label_columns"] != want["label_columns"]:
+                    fail("permuted-columns", f"fitted on columns {names}, transform of the frame with columns {[names[j] for j in perm]} has columns {got['label_columns']}; a detector "
+                                             f"fitted on that frame itself gives {want['label_columns']}: the dense output is labelled by the frame that is SCORED", {"perm": perm})
+                elif got["predict"] != want["predict"] or got["labels"] != want["labels"]:
                     fail("permuted-columns", f"fitted on columns {names}, applied to the frame with columns {[names[j] for j in perm]}: {str(got['predict'])[:140]} but the numbers in "
                                              f"those positions give {str(want['predict'])[:140]}", {"perm": perm})
             except Exception as ex:
